@@ -59,16 +59,18 @@ PROPERTIES = {
         "assumptions": ["claimed for the default feature set (calendar-queue backend), as the property states"],
         "stages": [
             native("queue", "cqmon", "c03", tiers=QT, timeout={"quick": 900, "thorough": 5400}),
+            native("runtime", "desmon", "c03rt", tiers=QT, timeout={"quick": 900, "thorough": 5400}, counter_prefix="rt_"),
         ],
         "floor": {
             "quick": {"fetches_from_a_tie_group": 100000, "adds_at_current_time": 50000, "year_wraps": 5000, "metamorphic_replays": 3000,
-                      "enumerated_sequences": 1000000},
+                      "enumerated_sequences": 1000000, "rt_tie_groups_dispatched": 100000, "rt_metamorphic_replays": 5000},
             "thorough": {"fetches_from_a_tie_group": 2000000, "adds_at_current_time": 1000000, "year_wraps": 100000, "metamorphic_replays": 60000,
-                         "enumerated_sequences": 50000000},
+                         "enumerated_sequences": 50000000, "rt_tie_groups_dispatched": 2000000, "rt_metamorphic_replays": 100000},
         },
     },
     "C15": {
         "level": "exploration",
+        "crash_is_violation": True,
         "rule": ("adaptive random add/cancel/fetch/drop histories on CQueue<P> for 10 payload types (1 B .. 2 KiB, align 1..16, with/without destructor, "
                  "zero sized, heap owning) x allocator page sizes {256..65536 that fit the node, system default} x (n,t); oracles = allocator shadow map fed by "
                  "hook H3 (alignment, in-page, disjoint from live regions, exact frees, pages released once), node addresses of the structure walk must be "
@@ -96,6 +98,73 @@ PROPERTIES = {
             "thorough": {"allocator_allocs": 10000000, "allocator_address_reuses": 3000000, "max_pages_of_one_queue": 100,
                          "events_pending_at_queue_drop": 1000000, "cancels_of_pending": 500000, "fetches": 3000000,
                          "rejected_past_adds": 20000, "miri_fetches": 3000, "asan_fetches": 100000, "memcheck_fetches": 20000},
+        },
+    },
+    "C02": {
+        "level": "exploration",
+        "rule": ("generated event forests on Runtime<App> (1..2000 events, branching <= 5, delays 0 / 1 ns / around bucket and year boundaries / random, shared "
+                 "delays producing equal timestamps, add_event and add_event_in) x start times (0, 1 ns, bucket / year multiples, 10 s, 1e6 s where the scan "
+                 "from zero stays bounded) x calendar-queue parameters (and the default ones); every handler logs (id, scheduled, SimTime::now()), attempts "
+                 "add_event in the past under catch_unwind on marked events, the clock writer is observed through hook H4 and the event set is walked "
+                 "through H6. Oracle: now == scheduled, non-decreasing, each event exactly once, every add at/after now accepted, every add before now / "
+                 "before the start time rejected and never dispatched, end time = last event. Non-trivial = program with >= 3 events that ran clean; "
+                 "distinct = hash of the program."),
+        "assumptions": ["the handlers of the monitor application are the observation boundary; H4 observes every SimTime::set_now",
+                        "start times are restricted to those the calendar queue can reach by scanning <= 1e6 buckets from zero (a larger start time "
+                        "makes the first fetch scan for hours; that is a performance matter outside the property)"],
+        "stages": [
+            native("runtime", "desmon", "c02", tiers=QT, timeout={"quick": 900, "thorough": 5400}),
+            native("heap-backend", "desmon", "c02", tiers=T, features="heap", timeout={"thorough": 5400}, counter_prefix="heap_",
+                   args={"thorough": ["cases=400000"]}),
+        ],
+        "floor": {
+            "quick": {"events_handled": 1000000, "past_adds_rejected_in_handlers": 20000, "programs_with_nonzero_start": 50000,
+                      "pre_run_adds_before_start_rejected": 50000, "clock_writes_observed": 1000000, "event_set_walks": 100000},
+            "thorough": {"events_handled": 50000000, "past_adds_rejected_in_handlers": 1000000, "programs_with_nonzero_start": 1000000,
+                         "pre_run_adds_before_start_rejected": 1000000, "clock_writes_observed": 50000000, "heap_events_handled": 1000000},
+        },
+    },
+    "C10": {
+        "level": "exploration",
+        "rule": ("event programs as for C02; for each program the uninterrupted run of the real code is the reference trace, then stepped executions: for "
+                 "programs <= 7 events EVERY composition into <= 3 n-event steps and every until-cut below / at / above every timestamp (single, pairs, mixed "
+                 "with n-steps), for larger ones random schedules, with and without external add_event while paused (at sim_time, between, at and after the "
+                 "next event). Oracle: per-step counts (exactly n or all; exactly those <= t), paused sim_time / remaining / dispatched against an exact "
+                 "reference model, concatenated trace == uninterrupted trace == model trace. Non-trivial = a step that dispatched something and left "
+                 "something pending; distinct = hash of (program, schedule)."),
+        "exhaustive_part": "all n-event compositions (<= 3 cuts) and all until-cuts around every timestamp for programs of <= 7 events",
+        "assumptions": ["dispatch_events_until is only called with times >= the paused time"],
+        "stages": [
+            native("runtime", "desmon", "c10", tiers=QT, timeout={"quick": 900, "thorough": 5400}),
+            native("heap-backend", "desmon", "c10", tiers=T, features="heap", timeout={"thorough": 5400}, counter_prefix="heap_",
+                   args={"thorough": ["cases=100000"]}),
+        ],
+        "floor": {
+            "quick": {"stepped_executions": 500000, "cuts_inside_a_tie_group": 100000, "external_adds_while_paused": 50000,
+                      "programs_with_exhaustive_step_schedules": 5000},
+            "thorough": {"stepped_executions": 10000000, "cuts_inside_a_tie_group": 2000000, "external_adds_while_paused": 1000000,
+                         "programs_with_exhaustive_step_schedules": 100000, "heap_stepped_executions": 1000000},
+        },
+    },
+    "C11": {
+        "level": "exploration",
+        "rule": ("event programs as for C02; the unlimited run of the real code gives the sequence E; limited runs built with Builder::max_itr / max_time / "
+                 "limit (nested And/Or trees, several calls combine with or): for programs <= 30 events EVERY count 0..|E|+2 and every time below / at / "
+                 "between / above the timestamps, plus random trees of depth <= 3. Oracle: independent limit-tree evaluator gives the stop index p; handled "
+                 "== E[0..p), event_count == p, end time == time of E[p-1] (start time if p = 0), remaining == multiset of (event, timestamp) scheduled by "
+                 "the prefix and not handled. Non-trivial = run stopped with events pending after dispatching at least one; distinct = hash of (program, limit)."),
+        "exhaustive_part": "every event-count limit and every time limit around every timestamp for programs of <= 30 events",
+        "assumptions": [],
+        "stages": [
+            native("runtime", "desmon", "c11", tiers=QT, timeout={"quick": 900, "thorough": 5400}),
+            native("heap-backend", "desmon", "c11", tiers=T, features="heap", timeout={"thorough": 5400}, counter_prefix="heap_",
+                   args={"thorough": ["cases=100000"]}),
+        ],
+        "floor": {
+            "quick": {"limited_executions": 300000, "runs_stopped_with_events_pending": 200000, "stops_inside_a_tie_group": 20000,
+                      "combined_limits": 50000, "programs_with_exhaustive_limits": 5000, "remaining_events_returned": 500000},
+            "thorough": {"limited_executions": 6000000, "runs_stopped_with_events_pending": 4000000, "stops_inside_a_tie_group": 400000,
+                         "combined_limits": 1000000, "programs_with_exhaustive_limits": 100000, "heap_limited_executions": 1000000},
         },
     },
 }
